@@ -12,6 +12,7 @@ pub use vfcore::*;
 mod layouts;
 mod wext;
 pub use wext::WExt;
+pub mod fmtx;
 
 /// bits -> value through the public `from_bits`
 #[inline]
